@@ -3,7 +3,7 @@ from engine import sx, Raw
 from common import *
 
 PID = "C20"
-THEOREMS = ["C20_ripemd", "C20_ripemd_tables", "C20_tagged"]
+THEOREMS = ["C20_ripemd", "C20_ripemd_tables", "C20_tagged", "C20_sign_total", "C20_sign_verifies", "C20_verify_ranges", "C20_s_unique", "C20_point_mul"]
 TECHNIQUE = "Coq proof (RIPEMD-160 model = 32-bit word specification for every length; BIP340 completeness and uniqueness over the abstract curve) + extracted-model correspondence against pycryptodome, hashlib and libsecp256k1"
 RULE = ("RIPEMD-160 on every length 0..300 and random lengths to 100000 (padding boundaries 55/56/63/64/119/120); tagged hashes through both copies; "
         "BIP340 signing for secrets across [1, n-1] incl. 1 and n-1 with random messages and aux values, byte-for-byte against libsecp256k1; "
